@@ -137,6 +137,7 @@ class Unit:
         self.prov = []           # provenance of extracted items
         self.fn_overlays = {}    # qualified name -> info (for vacuity probes / evidence)
         self.stubbed = []        # fns emitted as external_body stubs with contracts
+        self.restructured = set()   # fns whose loops no longer map 1:1 onto the overlay's loop signatures
         self.header_uses = ['use vstd::prelude::*;']
         self.active = None       # set of sub-unit names whose bodies are verified (None = all)
         self.fn_files = []       # source files functions were taken from (their top-level consts are extracted automatically)
@@ -172,6 +173,9 @@ class Unit:
             stats['R5'] += k
         text, k = rules.r5_pub_item(text)
         stats['R5'] += k
+        if kind == 'const':
+            text, k = rules.r22_fold_float_const(text)
+            stats['R22'] += k
         if post:
             text = post(text)
         prov['rules'] = dict(stats)
@@ -280,12 +284,19 @@ class Unit:
                         continue
                     raise LostAnchor('%s: no loop contains %r' % (qname, key))
                 hits.sort()
-                # innermost loop containing the signature; two disjoint loops with the same signature are ambiguous
-                if len(hits) > 1 and not all(found[hits[0][1]][0] >= found[o][0] and hits[0][0] <= sz for sz, o in hits[1:]):
-                    raise LostAnchor('%s: loop signature %r is ambiguous' % (qname, key))
-                by_ord.setdefault(hits[0][1], []).append(spec)
+                # nested loops both contain the text: the innermost one is meant.  Disjoint loops with the same signature: the
+                # function was restructured -- every such loop gets the clauses, and the function is marked `restructured`
+                inner = hits[0][1]
+                i0, i1 = found[inner][1], match_bracket(body, found[inner][1], '{', '}')
+                disjoint = [o for sz, o in hits[1:] if not (found[o][1] <= i0 and match_bracket(body, found[o][1], '{', '}') >= i1)]
+                for o in [inner] + disjoint:
+                    by_ord.setdefault(o, []).append(spec)
+                if disjoint:
+                    self.restructured.add(qname)
             merged = {}
             for o, specs in by_ord.items():
+                if len(specs) > 1 and any(isinstance(k, str) for k in loops):
+                    self.restructured.add(qname)    # one loop now does the work of several
                 m = dict(inv=[], inv_eb=[], ens=[], dec=None)
                 for sp in specs:
                     for k in ('inv', 'inv_eb', 'ens'):
@@ -407,7 +418,7 @@ class Unit:
         # function line ranges in the generated file
         fns = fn_ranges(txt)
         meta = dict(unit=self.name, file=path, tags=tagmap, functions=fns, provenance=self.prov,
-                    stubbed=self.stubbed, overlays=self.fn_overlays,
+                    stubbed=self.stubbed, overlays=self.fn_overlays, restructured=sorted(self.restructured),
                     sha256=hashlib.sha256(txt.encode()).hexdigest())
         with open(os.path.join(out_dir, self.name + '.map.json'), 'w') as f:
             json.dump(meta, f, indent=1)
